@@ -360,6 +360,8 @@ def direct_eval(graph, args):
             else:
                 raise Unsupported(type(o).__name__)
             return memo[id(x)]
+        if isinstance(x, tracer.Graph):
+            return closure(x)
         if isinstance(x, list):
             return [ev(i) for i in x]
         if isinstance(x, tuple):
@@ -369,6 +371,64 @@ def direct_eval(graph, args):
         if isinstance(x, slice):
             return slice(ev(x.start), ev(x.stop), ev(x.step))
         return x
+
+    def closure(sub):
+        """a nested graph as a Python function: what it reads from the enclosing graph is evaluated now, once (in the enclosing
+        order of evaluation); its own nodes are evaluated at every call"""
+        own = {id(i) for i in sub.inputs}
+        dep = {}
+
+        def children(o):
+            for v in vars(o).values():
+                yield v
+
+        def depends(x):
+            if isinstance(x, tracer.Tracer):
+                if id(x) in own:
+                    return True
+                if id(x) not in dep:
+                    dep[id(x)] = False
+                    dep[id(x)] = x.origin is not None and any(depends(c) for c in children(x.origin) if c is not x.origin.output)
+                return dep[id(x)]
+            if isinstance(x, (list, tuple)):
+                return any(depends(i) for i in x)
+            if isinstance(x, dict):
+                return any(depends(k) or depends(v) for k, v in x.items())
+            if isinstance(x, tracer.Graph):
+                return depends(x.output)
+            return False
+
+        def force(x):
+            if isinstance(x, tracer.Tracer):
+                if id(x) in own:
+                    return
+                if not depends(x):
+                    ev(x)
+                elif x.origin is not None:
+                    for c in children(x.origin):
+                        if c is not x.origin.output:
+                            force(c)
+            elif isinstance(x, (list, tuple)):
+                for i in x:
+                    force(i)
+            elif isinstance(x, dict):
+                for k, v in x.items():
+                    force(k)
+                    force(v)
+        force(sub.output)
+
+        def fn(*a):
+            saved = dict(memo)
+            try:
+                for inp, v in zip(sub.inputs, a):
+                    memo[id(inp)] = v
+                return ev(sub.output)
+            finally:
+                keep = {k: memo[k] for k in saved}
+                memo.clear()
+                memo.update(keep)
+        fn.__name__ = "nested"
+        return fn
 
     if not is_graph:
         return ev(graph)(*args), log
